@@ -14,6 +14,13 @@ def chk(pid, text, note, design, technique='deductive verification: ast->VC gene
     }
 
 CHECKS = [
+    chk("C07", "Read/write cycle for parameter elements: the writer is proved to emit EMIT_x(p) for every attribute x, and the reader, "
+        "given an element carrying exactly those attributes, is proved to rebuild a parameter from which the writer emits the same "
+        "attributes again (attribute-level byte identity), although not_nullable / caller_allocates-on-in are normalised; also "
+        "emission contracts for constants, members, properties and functions.",
+        "Trusted: givc, ElementTree, _parse_type and _parse_generic_attribs by assumed contract, XML layer (C20). Only parameter "
+        "elements have both directions under contract; return values, types, records, classes, documents as a whole and the "
+        "shipped GIR files are not yet covered.", "DESIGN.md section 4 C07"),
     chk("C09", "The section-offset arithmetic of the real GIObjectInfo accessors (get_property/method/vfunc/constant, signal offset, "
         "field offset walk over embedded callbacks) is proved equal to the ObjectBlob layout of gitypelib-internal.h written as a "
         "table; each accessor creates its info at section_start + n*size with the right info type, and rejects non-object infos.",
